@@ -170,26 +170,29 @@ func (ch *channel) SendAndClose(ctx async.Context, data []byte) status.Status {
 
 	// If opened, close, send data/close
 	if s.opened.Load() {
-		s.close()
-
 		// Decrement window
 		size := int32(len(data))
 		s.sendWindow.Add(-size)
 
-		// Send message
-		return s.sender.sendClose(ctx, data)
+		// Send message, then close.
+		// Closing cancels the channel context, which is the context handlers pass here,
+		// so closing first could drop the close message when the write queue is full.
+		st := s.sender.sendClose(ctx, data)
+		s.close()
+		return st
 	}
 
-	// Open/close channel
+	// Open channel
 	s.open()
-	s.close()
 
 	// Decrement window
 	size := int32(len(data))
 	s.sendWindow.Add(-size)
 
-	// Send open/data/close
-	return s.sender.sendOpenClose(ctx, data)
+	// Send open/data/close, then close
+	st := s.sender.sendOpenClose(ctx, data)
+	s.close()
+	return st
 }
 
 // Receive
